@@ -131,3 +131,15 @@ class Holder:
         @staticmethod
         def conv(value):
             return value
+
+
+def reenter_sect(section):
+    """Section datatype that only re-enters (C05)."""
+    reenter()
+    return section
+
+
+def reenter_str(value):
+    """Value datatype that only re-enters."""
+    reenter()
+    return value
